@@ -127,8 +127,14 @@ func makeAccumulatorFunc(expr parser.ItemType) (newAccumulatorFunc, error) {
 
 			return &accumulator{
 				AddFunc: func(v float64) {
+					// The first sample seeds the sum like in Prometheus, so that a
+					// group of negative zeros sums up to a negative zero.
+					if !hasValue {
+						value = v
+					} else {
+						value += v
+					}
 					hasValue = true
-					value += v
 				},
 				ValueFunc: func() float64 { return value },
 				HasValue:  func() bool { return hasValue },
@@ -205,9 +211,13 @@ func makeAccumulatorFunc(expr parser.ItemType) (newAccumulatorFunc, error) {
 
 			return &accumulator{
 				AddFunc: func(v float64) {
+					if !hasValue {
+						sum = v
+					} else {
+						sum += v
+					}
 					hasValue = true
 					count += 1
-					sum += v
 				},
 				ValueFunc: func() float64 { return sum / count },
 				HasValue:  func() bool { return hasValue },
